@@ -4,6 +4,7 @@ import (
 	"encoding/json"
 	"fmt"
 	"runtime"
+	"sort"
 	"sync"
 
 	"verif/internal/ref"
@@ -63,7 +64,13 @@ func (c *c01) Generate(cx *Ctx, chunk int) []*Item {
 		if i < nGen {
 			g := &progGen{r: cx.Rng(fmt.Sprintf("c01/%d", i))}
 			cl, q, nv := g.program()
-			metas = append(metas, &DiffMeta{Program: cl, Query: q, NVars: nv, Max: 25, Family: "generated", Assert: i%10 == 9})
+			// compare exactly the variables that occur in the query
+			qv := term.VarsOf(q)
+			sort.Slice(qv, func(a, b int) bool { return qv[a] < qv[b] })
+			if qv == nil {
+				qv = []int64{}
+			}
+			metas = append(metas, &DiffMeta{Program: cl, Query: q, NVars: nv, QVars: qv, Max: 25, Family: "generated", Assert: i%10 == 9})
 		} else {
 			metas = append(metas, classicCase(cx, i-nGen))
 		}
